@@ -451,3 +451,50 @@ Definition c06_job (act : c06_action) (input : option c06_opened) (more_warnings
           ([C6EvOpenInput; C6EvOpenOutput; C6EvWriteOutput], match ws with [] => if more_warnings then 3 else 0 | _ => 3 end)
       end
   end.
+
+(* ------------------------------------------------------------------ the per-object key cache (QPDF::getKeyForObject) *)
+(* 'if (og != encp->cached_key_og) { encp->cached_object_encryption_key = compute_data_key(key, obj, gen, use_aes, V, R);
+   encp->cached_key_og = og; } return encp->cached_object_encryption_key;'  -- the cache is keyed by the object only:
+   a second request for the same object gets the key computed for the FIRST request, whatever use_aes says.
+   The decrypt functions above describe one leaf on its own (cache cold, or last used for another object); the functions
+   below describe a sequence of leaves in the order qpdf meets them (an object read lazily: the strings of its
+   dictionary at parse time, then its stream data). *)
+Record c06_cache := { c6c_num : N; c6c_gen : N; c6c_key : list N }.
+
+Definition c06_key_for_object (st : c06_state) (cache : option c06_cache) (num gen : N) (use_aes : bool)
+  : list N * option c06_cache :=
+  let fresh := kd_compute_data_key (c6t_key st) num gen use_aes (c6t_V st) in
+  match cache with
+  | Some ch => if (c6c_num ch =? num) && (c6c_gen ch =? gen) then (c6c_key ch, cache)
+               else (fresh, Some {| c6c_num := num; c6c_gen := gen; c6c_key := fresh |})
+  | None => (fresh, Some {| c6c_num := num; c6c_gen := gen; c6c_key := fresh |})
+  end.
+
+(* the (use_aes, warn) decision for a leaf: None = the data is left alone (the same case analysis as
+   c06_decrypt_string / c06_decrypt_stream) *)
+Definition c06_leaf_dec (st : c06_state) (l : c06_leaf) : option (bool * bool) :=
+  match c6l_kind l with
+  | C6String w =>
+      if c06_where_decrypts w then (if 4 <=? c6t_V st then c06_switch (c6t_cf_string st) else Some (false, false)) else None
+  | C6Stream s =>
+      if c6d_xref s then None
+      else if 4 <=? c6t_V st then c06_switch (c06_stream_method st s) else Some (false, false)
+  end.
+
+Definition c06_cipher (use_aes : bool) (k data : list N) : option (list N) :=
+  if use_aes then pl_aes_decrypt k true (IvWritten []) true data else Some (rc4 k data).
+
+Fixpoint c06_decrypt_seq (st : c06_state) (cache : option c06_cache) (ls : list c06_leaf) : list c06_leaf_result :=
+  match ls with
+  | [] => []
+  | l :: t =>
+      match c06_leaf_dec st l with
+      | None => C6LeafOk (c6l_data l) false :: c06_decrypt_seq st cache t
+      | Some (use_aes, warn) =>
+          let kc := c06_key_for_object st cache (c6l_num l) (c6l_gen l) use_aes in
+          (match c06_cipher use_aes (fst kc) (c6l_data l) with
+           | Some r => C6LeafOk r warn
+           | None => C6LeafError
+           end) :: c06_decrypt_seq st (snd kc) t
+      end
+  end.
